@@ -31,7 +31,7 @@ type Case = copysc.Case
 func gen(t *rapid.T) Case { return copysc.Gen(t, copysc.DefaultGen()) }
 
 func optKey(o copysc.CopyOpts) string {
-	return fmt.Sprintf("f%v,r%v/%s,d%v,x%v,q%v", o.ForceRecursive, o.Referrers, o.RefArtifactType, o.DigestTags, o.IncludeExternal, o.FastCheck)
+	return fmt.Sprintf("f%v,r%v/%s/%s=%s,d%v,x%v,q%v,c%v", o.ForceRecursive, o.Referrers, o.RefArtifactType, o.RefAnnotKey, o.RefAnnotVal, o.DigestTags, o.IncludeExternal, o.FastCheck, o.Callback)
 }
 
 // verify checks clauses (1) and (2) against raw target storage.
@@ -116,7 +116,7 @@ func verify(e *copysc.Env, stage string) *evid.Violation {
 			}
 			want := []string{}
 			for _, rd := range audit.RawReferrers(e.Src.View(), md) {
-				if c.Opts.RefArtifactType != "" && rd["artifactType"] != c.Opts.RefArtifactType {
+				if !e.RefMatch(rd) {
 					continue
 				}
 				// a referrer manifest that already existed at the target is "trusted to be
@@ -129,7 +129,7 @@ func verify(e *copysc.Env, stage string) *evid.Violation {
 			if len(want) == 0 {
 				continue
 			}
-			ft := strings.Replace(md, ":", "-", 1)
+			ft := rm.FallbackTag(md)
 			fd, ok := tv.Tag(ft)
 			if !ok {
 				return evid.V("referrers-fallback-tag-missing", "%s: target has no fallback tag %s although referrers %v were copied", stage, ft, want)
@@ -192,6 +192,18 @@ func check(c Case, ev *evid.Collector) *evid.Violation {
 	}
 	if c.Opts.FastCheck {
 		classes = append(classes, "opt:fast-check")
+	}
+	if c.Opts.RefAnnotKey != "" {
+		classes = append(classes, "opt:referrers-annotation-filter")
+	}
+	if c.Opts.Callback {
+		classes = append(classes, "opt:callback")
+	}
+	if c.SrcForm != "" {
+		classes = append(classes, "src-form:"+c.SrcForm)
+	}
+	if g.Nodes[g.Root].Digest[:6] == "sha512" {
+		classes = append(classes, "root-digest:sha512")
 	}
 	ctx := context.Background()
 	cerr, timedOut := e.Copy(ctx)
